@@ -241,12 +241,61 @@ class paint_to_svg_leaf_paints:
     native = False
 
 
+# `fill_below_transforms(p)`: p is a solid or gradient paint, directly or below transform
+# paints -- what a <path> can carry as its fill.  `_is_fill` is summarised by this ghost
+# predicate at its call site; that the real loop computes it is checked on paint chains of
+# bounded depth (second contract).
+def _fbt(p):
+    return ufn("fill_below_transforms", "bool", p)
+
+
+@contract("nanoemoji.colr_to_svg._is_fill", props=["C13"])
+class is_fill_summary:
+    assumed = True
+    args = {"ot_paint": OTP}
+    returns = Bool
+    ensures = {"the-ghost-predicate": lambda ot_paint, result: result == _fbt(ot_paint)}
+    native = False
+    note = "modular summary of _is_fill by the ghost predicate fill_below_transforms; the real function is under the contract is_fill_unwraps_transforms (chains of bounded depth)"
+
+
+_LEAF = lambda: Obj(Format=IntRange(1, 11))
+_LEAF32 = lambda: Obj(Format=Const(32))
+
+
+@contract("nanoemoji.colr_to_svg._is_fill", props=["C13"])
+class is_fill_unwraps_transforms:
+    args = {
+        "ot_paint": OneOf(
+            _LEAF(),
+            _LEAF32(),
+            Obj(Format=IntRange(12, 31), Paint=_LEAF()),
+            Obj(Format=IntRange(12, 31), Paint=_LEAF32()),
+            Obj(Format=IntRange(12, 31), Paint=Obj(Format=IntRange(12, 31), Paint=_LEAF())),
+            Obj(Format=IntRange(12, 31), Paint=Obj(Format=IntRange(12, 31), Paint=Obj(Format=IntRange(12, 31), Paint=_LEAF()))),
+        )
+    }
+    scope = "finite: chains of at most three transform paints above a non-transform paint"
+    ensures = {
+        "format-of-the-first-non-transform-paint": lambda ot_paint, result: result == (_innermost(ot_paint).Format in (2, 4, 6)),
+    }
+    native = False
+
+
+def _innermost(p):
+    # in the shapes above a paint has a child exactly when its format is a transform format
+    while hasattr(p, "Paint"):
+        p = p.Paint
+    return p
+
+
 @contract(_SELF, props=["C13"])
 class paint_to_svg_glyph:
-    """PaintGlyph: a <path> carrying the pending transform; its fill is reached with identity"""
+    """PaintGlyph over a fill: a <path> carrying the pending transform; its fill is reached
+    with identity"""
 
     args = dict(_COMMON, ot_paint=Obj(Format=Const(10), Glyph=Str, Paint=OTP))
-    requires = _REQ
+    requires = _REQ + [lambda ot_paint: _fbt(ot_paint.Paint)]
     ensures = {
         "one-path-under-the-parent": lambda parent_el: len(parent_el.children) == 1 and parent_el.children[0].tag == "path",
         "path-carries-the-pending-transform": lambda parent_el, transform, font_to_vbox, calls: _written_ok(parent_el.children[0], transform, font_to_vbox, calls),
@@ -260,6 +309,42 @@ class paint_to_svg_glyph:
         is parent_el.children[0]
         and calls["nanoemoji.colr_to_svg._draw_svg_path"][0].args.glyph_name == ot_paint.Glyph
         and spec.aff(calls["nanoemoji.colr_to_svg._draw_svg_path"][0].args.font_to_vbox) == spec.aff(font_to_vbox),
+    }
+    native = False
+
+
+def _draw_call(calls):
+    return calls["nanoemoji.colr_to_svg._draw_svg_path"][0].args
+
+
+@contract(_SELF, props=["C13"])
+class paint_to_svg_glyph_clips_graph:
+    """PaintGlyph over anything but a fill (layers, another glyph, a colour-glyph reference, a
+    composite): the outline clips that graph.  A <path> cannot hold child graphics, so the
+    statement's "same image" needs a group clipped by the outline: the group carries the
+    pending transform, the clip path is the outline through font_to_vbox in the group's user
+    space, and the graph below is reached with identity."""
+
+    args = dict(_COMMON, ot_paint=Obj(Format=Const(10), Glyph=Str, Paint=OTP))
+    requires = _REQ + [lambda ot_paint: not _fbt(ot_paint.Paint)]
+    ensures = {
+        "no-graphics-inside-a-path": lambda parent_el: all(ch.tag != "path" or len(ch.children) == 0 for ch in parent_el.children),
+        "one-clipped-group-under-the-parent": lambda parent_el: len(parent_el.children) == 1 and parent_el.children[0].tag == "g" and "clip-path" in parent_el.children[0].attrib,
+        "group-carries-the-pending-transform": lambda parent_el, transform, font_to_vbox, calls: _written_ok(parent_el.children[0], transform, font_to_vbox, calls),
+        "clip-path-defined-once-and-referenced": lambda parent_el, svg_defs: len(svg_defs.children) == 1
+        and svg_defs.children[0].tag == "clipPath"
+        and parent_el.children[0].attrib["clip-path"] == "url(#" + svg_defs.children[0].attrib["id"] + ")"
+        and len(svg_defs.children[0].children) == 1
+        and svg_defs.children[0].children[0].tag == "path"
+        and "transform" not in svg_defs.children[0].attrib
+        and "transform" not in svg_defs.children[0].children[0].attrib,
+        "clip-outline-through-font-to-viewbox": lambda svg_defs, ot_paint, font_to_vbox, calls: _draw_call(calls).svg_path is svg_defs.children[0].children[0]
+        and _draw_call(calls).glyph_name == ot_paint.Glyph
+        and spec.aff(_draw_call(calls).font_to_vbox) == spec.aff(font_to_vbox),
+        "accounting": lambda parent_el, ot_paint, calls: len(calls[_SELF]) == 1
+        and _rec(calls).parent_el is parent_el.children[0]
+        and same(_rec(calls).ot_paint, ot_paint.Paint)
+        and spec.aff(_rec(calls).transform) == spec.ID,
     }
     native = False
 
